@@ -452,11 +452,13 @@ func gen(g *zv.Gen) {
 	genJunk(g)
 	// hand-made messages aimed at single guards
 	synth(g)
+	// the logging schedule: real clients fed composed / cut sequences of recorded messages (T2 `c28 sched`)
+	genSched(g)
 }
 
 func init() {
 	zv.Register(&zv.Prop{ID: "C28", Topic: "c28", Gen: gen, Exec: exec,
-		Rule: "hs: one real client/server handshake per (version x suite x key type x ALPN x ticket/resumption x curve x server chain of 1-4 certificates x set of zcrypto-specific client options [ForceSessionTicketExt, SignedCertificateTimestampExt, ExtendedMasterSecret, ExtendedRandom, HeartbeatEnabled, NoOcspStapling, ClientDSAEnabled, explicit CurvePreferences/SupportedPoints/SignatureAndHashes, ClientRandom, SessionTicketsDisabled, DontBufferHandshakes, InsecureSkipVerify]) scenario, log compared with an independent parse of the captured transcript (T3 only); hsj: one real handshake (TLS 1.0-1.3 x InsecureSkipVerify on/off x key type x DontBufferHandshakes/cache/ALPN/static RSA) against a server whose certificate list is not a clean chain — every kind of non-certificate (empty, 1 byte, junk, non-certificate DER, random bytes, truncated/extended/flipped certificates) inserted at and replacing every position of chains of 1-4 certificates (after the leaf, middle, end, several, leaf position), duplicates, wrong order, unrelated certificates, missing links, random compositions; server_certificates must have one entry per certificate received, Raw at every index = the bytes at that index of the Certificate message on the wire (TLS 1.3: configured chain), Parsed (where attached) = parse of the bytes at the same index, outcome (abort/complete) recorded not prescribed (T3 only); ch/sh/cert/cert13/fin/skx: handshake messages taken from such handshakes plus byte/structure mutations of them and synthetic messages, through the real parser+MakeLog (hook) and the Lean log-mapping model; a case is one distinct line"})
+		Rule: "hs: one real client/server handshake per (version x suite x key type x ALPN x ticket/resumption x curve x server chain of 1-4 certificates x set of zcrypto-specific client options [ForceSessionTicketExt, SignedCertificateTimestampExt, ExtendedMasterSecret, ExtendedRandom, HeartbeatEnabled, NoOcspStapling, ClientDSAEnabled, explicit CurvePreferences/SupportedPoints/SignatureAndHashes, ClientRandom, SessionTicketsDisabled, DontBufferHandshakes, InsecureSkipVerify]) scenario, log compared with an independent parse of the captured transcript (T3 only); hsj: one real handshake (TLS 1.0-1.3 x InsecureSkipVerify on/off x key type x DontBufferHandshakes/cache/ALPN/static RSA) against a server whose certificate list is not a clean chain — every kind of non-certificate (empty, 1 byte, junk, non-certificate DER, random bytes, truncated/extended/flipped certificates) inserted at and replacing every position of chains of 1-4 certificates (after the leaf, middle, end, several, leaf position), duplicates, wrong order, unrelated certificates, missing links, random compositions; server_certificates must have one entry per certificate received, Raw at every index = the bytes at that index of the Certificate message on the wire (TLS 1.3: configured chain), Parsed (where attached) = parse of the bytes at the same index, outcome (abort/complete) recorded not prescribed (T3 only); ch/sh/cert/cert13/fin/skx: handshake messages taken from such handshakes plus byte/structure mutations of them and synthetic messages, through the real parser+MakeLog (hook) and the Lean log-mapping model; sched: real clients (deterministic Rand/Time) fed streams composed from 22 recorded handshakes — cut at every message, messages dropped/doubled/swapped/replaced by variants/inserted, random compositions — populated log fields and their source positions vs the Lean schedule model (T2) and vs an independent parse of the stream (T3); a case is one distinct line"})
 }
 
 // synth: hand-made messages aimed at single guards of the parsers / log builders.
